@@ -175,7 +175,20 @@ class Engine(EngineBase):
                     opts["recursive"] = True
         if opts["exclude"] and rng.random() < 0.25:
             opts["exclude"] = [opts["exclude"], r"zzz"]  # the API also accepts a list of patterns
-        if src_jobs and rng.random() < 0.35:
+        if P == "C15" and opts["parallel"] and rng.random() < 0.6:
+            # the parallel variant is only interesting when several existing jobs are synchronised at once
+            both = sorted(set(src_jobs) & set(dst_jobs))
+            for k in sorted(set(src_jobs))[:3]:
+                if k not in dst_jobs:
+                    dst_jobs[k] = {"sp": src_jobs[k]["sp"], "doc": {}, "files": {}}
+                src_jobs[k]["doc"] = dict(src_jobs[k]["doc"], from_src=1)
+                dst_jobs[k]["doc"] = dict(dst_jobs[k]["doc"], only_dst=k)
+            if not isinstance(opts["exclude"], list):
+                opts["exclude"] = [opts["exclude"] or r"zz", r"zzz"]
+            opts["strategy"] = rng.choice(["always", "always", "update", None])
+            opts["dry_run"] = False
+            opts["selection"] = None
+        if src_jobs and rng.random() < 0.35 and not (P == "C15" and opts["parallel"]):
             opts["selection"] = sorted(rng.sample(sorted(src_jobs), rng.randrange(0, len(src_jobs) + 1)))
         entry = rng.choice(["Project.sync", "Project.sync", "sync_projects", "Job.sync", "sync_jobs"])
         pair = None
@@ -472,8 +485,10 @@ class Run:
                        "C15:dry-run:destination-changed:" + self.dry_kind(snap_d0, snap_d1))
             exc_real = self.call(real_copy[0], real_copy[1], o, dry_run=False)
             greal = type(exc_real).__name__ if exc_real is not None else None
-            both_conflicts = got in want_exc and greal in want_exc
-            if got != greal and not both_conflicts:
+            # when several documents / files of a scenario fail, which failure is met first depends on the
+            # order in which jobs are processed; a dry run must fail iff the real run fails
+            both_fail = got is not None and greal is not None
+            if got != greal and not both_fail:
                 self.v("C15", "C15:dry-run:outcome-differs-from-real-run",
                        f"dry run ended with {got}: {str(exc)[:160]}; the real run on a copy ended with {greal}",
                        f"C15:dry-run:ends-{got}-real-run-ends-{greal}")
@@ -512,7 +527,7 @@ class Run:
             return
         # ---- returned normally: exact comparison with the reference --------------------------
         self.compare(ms, md, ma, exp)
-        if self.V:
+        if any(v["property"] == self.prop for v in self.V):
             return
         # idempotence (C13)
         exc2 = self.call(sp_, dp_, o)
@@ -656,8 +671,14 @@ class Run:
                         f"{'absent' if rel not in fa else fa[rel][:20]!r}")
                 if not selected:
                     self.v("C15", "C15:unselected-job-modified", what)
+                elif rel in fe and rel not in fa and in_src and not in_dst:
+                    # the reference says this source file must have been copied (its own name is not
+                    # excluded, whatever its parent directories are called)
+                    self.v("C13", "C13:source-file-not-copied", what + (f" (exclude {patterns})" if patterns else ""),
+                           "C13:source-file-not-copied:" + ("nested" if "/" in rel else "top"))
                 elif sync_ref.excluded(base, patterns) or any(
                         sync_ref.excluded(part, patterns) for part in rel.split("/")[:-1]):
+                    # an excluded name was created or modified in the destination
                     kind = "in-cloned-job" if jb is None else "in-copied-directory" if not in_dst else "existing"
                     self.v("C15", "C15:excluded-file-touched", what + f" (exclude {patterns})",
                            "C15:excluded-file-created-" + kind)
